@@ -891,6 +891,26 @@ func (x *Exec) trCall(e *Expr, env *Env) (Term, error) {
 				return tBool(app("select", args[0].S, args[1].S)), nil
 			}
 			return Term{S: app("store", args[0].S, args[1].S, "true"), Sort: args[0].Sort}, nil
+		case "fresh":
+			// fresh(s): the slice's backing array (or the pointer's object) was allocated after the function was entered
+			args, err := trArgs()
+			if err != nil {
+				return Term{}, err
+			}
+			if len(args) != 1 {
+				return Term{}, fmt.Errorf("fresh(x) takes one argument")
+			}
+			if _, ok := x.vc.heapSort[allocVar]; !ok {
+				x.vc.heapSort[allocVar] = SInt
+			}
+			a0 := x.get(env.old, allocVar).S
+			switch args[0].Sort {
+			case SSlice:
+				return tBool(mkOr(app("=", app("s.cap", args[0].S), "0"), app(">=", app("s.arr", args[0].S), a0))), nil
+			case SInt:
+				return tBool(mkOr(app("=", args[0].S, "0"), app(">=", args[0].S, a0))), nil
+			}
+			return Term{}, fmt.Errorf("fresh(x) needs a slice or a pointer")
 		case "sameArray":
 			args, err := trArgs()
 			if err != nil {
